@@ -357,6 +357,14 @@ def check_guarded(ctx, tu, sy, rec, T, f, counts):
             return [(locks, known)]
         if n is None:
             return [st]
+        if n.get('kind') in CALLS and ('direct', mutex) in locks:
+            sdn = tu.sd(n)
+            if 'noexcept' not in (sdn.get('fty') or '').rsplit(')', 1)[-1] and sdn.get('rec') not in ('std::mutex', 'std::atomic', 'std::__atomic_base') \
+                    and sdn.get('q') not in ('std::move', 'std::forward') and sdn.get('fty'):
+                found.viol(R5, fn_short(cur_fn()), 'lock-held-across-throwing-call', '%s is locked with a bare %s.lock() and %s can throw '
+                           '(std::bad_alloc, a throwing copy of the payload) before the matching unlock(): the exception leaves the '
+                           'mutex locked for ever, and every later push_back / consume / size blocks. Use a lock_guard / unique_lock'
+                           % (T['mutex'], T['mutex'], sdn.get('q') or tu.show(n)), n)
         # stores / read-modify-writes on an atomic guarded member (decoded at the call element)
         if ev is not None and ev[0] in ('store', 'rmw') and ev[1] is not None and ev[1][0] == rec and ev[1][1] in T['guarded'] \
                 and n.get('kind') in ('CXXMemberCallExpr', 'CXXOperatorCallExpr') and sy.atomic_op(n) is not None:
@@ -414,10 +422,17 @@ def check_guarded(ctx, tu, sy, rec, T, f, counts):
             nacc[0] += 1
             if user is not None and user.get('kind') == 'UnaryOperator' and user.get('opcode') == '&':
                 found.und(R1, 'address of the guarded member %s is taken: escapes the lock scope' % fld[1], n)
-            if cur_fn()['fty'].split('(')[0].strip().endswith(('&', '*')) and user is not None and \
-                    user.get('kind') == 'ReturnStmt':
-                found.viol(R1, fn_short(cur_fn()), '%s-escapes' % fld[1], 'a reference to the guarded member %s is returned: the caller uses it '
-                           'outside the lock' % fld[1], n)
+            ru, hops = user, 0
+            while ru is not None and hops < 5 and (ru.get('kind') in ('CXXStaticCastExpr', 'CXXConstCastExpr', 'CStyleCastExpr') or
+                                                    (ru.get('kind') == 'CallExpr' and tu.sd(ru).get('q') in ('std::move', 'std::forward'))):
+                ru = nearest_user(tu, ru)
+                hops += 1
+            if cur_fn()['fty'].split('(')[0].strip().endswith(('&', '*')) and ru is not None and ru.get('kind') == 'ReturnStmt':
+                found.viol(R1, fn_short(cur_fn()), '%s-escapes' % fld[1], '%s returns a reference (%s) to the guarded member %s instead of '
+                           'a value: nothing is taken out under the lock - the caller reads / moves from the member after %s has '
+                           'released %s, concurrently with the other thread\'s locked accesses (data race; elements pushed in between '
+                           'are lost or seen torn)' % (last(cur_fn()['q']), cur_fn()['fty'].split('(')[0].strip(), fld[1],
+                                                       last(cur_fn()['q']), T['mutex']), n)
             if not LockState.holds(locks, mutex):
                 unlocked(R1, fn_short(cur_fn()), '%s-unlocked' % fld[1], 'the member %s (guarded by %s) is accessed on a path where no lock on %s is '
                          'held: data race with the other thread\'s locked access' % (fld[1], T['mutex'], T['mutex']), n)
@@ -617,7 +632,12 @@ def check_buffer_ops(ctx, tu, sy, f, counts):
         return
 
     if name == 'consume':
-        if not f['fty'].startswith('std::vector<') or f['fty'].split('(')[0].strip().endswith(('&', '*')):
+        if f['fty'].split('(')[0].strip().endswith(('&', '*')):
+            # hands out a reference instead of a batch: nothing to follow here; R-C12-1 reports the escaping member
+            counts[R2] += 0
+            ctx.ok(R2, inst, 'returns a reference: judged by R-C12-1 (escape of the guarded member)', tu.fn_loc(f), nontrivial=False)
+            return
+        if not f['fty'].startswith('std::vector<'):
             found.und(R2, 'consume() does not return a std::vector by value', None)
         mutex = (BUF, T['mutex'])
         ELEMENT = ('operator[]', 'at', 'front', 'back', 'data')
